@@ -342,7 +342,11 @@ impl TryFrom<&[u8]> for ExtendedAddr {
 
     fn try_from(slice: &[u8]) -> Result<Self, Self::Error> {
         let mut raw = Deserializer::from(std::io::Cursor::new(slice));
-        cbor_event::de::Deserialize::deserialize(&mut raw)
+        let addr = cbor_event::de::Deserialize::deserialize(&mut raw)?;
+        if raw.as_mut_ref().position() != slice.len() as u64 {
+            return Err(cbor_event::Error::TrailingData);
+        }
+        Ok(addr)
     }
 }
 impl cbor_event::se::Serialize for ExtendedAddr {
